@@ -9,7 +9,7 @@ RULE = ("sequences of good and corrupted frames of the three protocols and arbit
         "{0,1,2} x handler {function, bound method, falsy callable object, absent} x random protfilter/parsing; READ correspondence (items, handler calls in "
         "order with exception class, raised exception) + search on the implementation: items(IGNORE)==items(LOG); "
         "RAISE delivers the IGNORE items up to the first rejection and raises exactly the first exception the LOG "
-        "handler received; no handler call without a rejection.")
+        "handler received; no handler call without a rejection; the same three comparisons over streams whose read() returns short (cap 1, 3, 16 bytes) while data follows.")
 
 
 def inp_base(s, pf, parsing):
@@ -64,3 +64,35 @@ def run(ctx):
             else:
                 if rs["raised"] is not None or rp.items_key(rs["items"]) != rp.items_key(ig["items"]):
                     ctx.fail("raise-without-rejection", inp, "same as IGNORE", str(rs["raised"]))
+
+    capped(ctx, rng, streams)
+
+
+def capped(ctx, rng, streams):
+    """Streams whose read(n) returns fewer bytes than asked although more data follows (implementation only: the
+    model's streams never return short before the end).  The three policies must still agree on what is delivered."""
+    rl.install()
+    try:
+        n = 0
+        for s in streams[: (60 if ctx.quick() else 600)]:
+            for cap in (1, 3, 16):
+                runs = {}
+                for qe in (0, 1, 2):
+                    runs[qe] = rl.run_reader(s, 7, qe, True, 1, 0, True, readcap=cap)
+                    n += 1
+                ig, lg, rs = runs[0], runs[1], runs[2]
+                inp = {"op": "READ-CAPPED", "stream": s.hex(), "cap": cap}
+                if rp.items_key(ig["items"]) != rp.items_key(lg["items"]):
+                    ctx.fail("ignore-vs-log-items", inp, str(rp.items_key(ig["items"]))[:300], str(rp.items_key(lg["items"]))[:300])
+                elif ig["raised"] or lg["raised"]:
+                    ctx.fail("raised-under-ignore-or-log", inp, "no exception", str((ig["raised"], lg["raised"])))
+                elif lg["reports"]:
+                    got = rp.items_key(rs["items"])
+                    if rs["raised"] != lg["reports"][0] or got != rp.items_key(ig["items"])[:len(got)]:
+                        ctx.fail("raise-differs-from-first-rejection", inp, lg["reports"][0], str(rs["raised"]))
+                elif rs["raised"] is not None or rp.items_key(rs["items"]) != rp.items_key(ig["items"]):
+                    ctx.fail("raise-without-rejection", inp, "same as IGNORE", str(rs["raised"]))
+        ctx.evaluations += n
+        ctx.count("capped_runs", n)
+    finally:
+        rl.uninstall()
